@@ -330,7 +330,7 @@ def entity_cursors(F, var) -> list:
     return cur
 
 
-def containers_of_kind(project, fn, var, kind, universe=_flat_names, ctx=None, _depth=0) -> set:
+def containers_of_kind(project, fn, var, kind, universe=_flat_names, ctx=None, _depth=0, symbols=False, probe=None) -> set:
     """Flat-container names function `fn` (a view) can choose for an entity of class `kind` held by `var` (or by the cursor
     local that walks from `var` up its parents, when that is what the function classifies):
     * the string constants assigned / returned on the paths that are feasible for that kind (isinstance chains, guard
@@ -346,7 +346,7 @@ def containers_of_kind(project, fn, var, kind, universe=_flat_names, ctx=None, _
         subjects = [var]
     out = set()
     for subject in subjects:
-        out |= _containers_of(project, F, fn, subject, kind, universe, ctx, _depth)
+        out |= _containers_of(project, F, fn, subject, kind, universe, ctx, _depth, symbols, probe)
     return out
 
 
@@ -438,7 +438,7 @@ def _bound_callee(ctx, callee, others):
     return sem_view(ctx, replace_node(callee, node))
 
 
-def _containers_of(project, F, fn, var, kind, universe, ctx=None, _depth=0) -> set:
+def _containers_of(project, F, fn, var, kind, universe, ctx=None, _depth=0, symbols=False, probe=None) -> set:
     facts = KindFacts(project, kind)
     out = set()
 
@@ -479,6 +479,14 @@ def _containers_of(project, F, fn, var, kind, universe, ctx=None, _depth=0) -> s
         cs = _str_consts(F, e, var, facts)
         if cs:
             return cs
+        if symbols:
+            # an attribute of the object itself stands for its name: `self._data` -> "._data", getattr(self, <name>) -> "." + <name>
+            sn = fn.self_name
+            if isinstance(e, ast.Attribute) and isinstance(e.value, ast.Name) and sn is not None and e.value.id == sn:
+                return {"." + e.attr}
+            if isinstance(e, ast.Call) and name_of(e.func) == "getattr" and len(e.args) >= 2 and sn is not None and unparse(e.args[0]) == sn:
+                vs = operand(e.args[1], at)
+                return None if vs is None else {"." + x for x in vs if isinstance(x, str)}
         if isinstance(e, ast.BoolOp) and isinstance(e.op, ast.Or):
             out = set()
             for i, v in enumerate(e.values):
@@ -495,7 +503,7 @@ def _containers_of(project, F, fn, var, kind, universe, ctx=None, _depth=0) -> s
             return name_values(e.id, at)
         d = _delegate(project, fn, F, e, var) if ctx is not None and _depth < 2 else None
         if d is not None:
-            return containers_of_kind(project, _bound_callee(ctx, d[0], d[2]), d[1], kind, _OrNone(universe), ctx, _depth + 1)
+            return containers_of_kind(project, _bound_callee(ctx, d[0], d[2]), d[1], kind, _OrNone(universe), ctx, _depth + 1, symbols)
         return None
 
     def values(expr, at):
@@ -521,6 +529,12 @@ def _containers_of(project, F, fn, var, kind, universe, ctx=None, _depth=0) -> s
             vs = r.value.values if isinstance(r.value, ast.BoolOp) else [r.value]
             direct_results |= {v.id for v in vs if isinstance(v, ast.Name)}
 
+    if probe is not None:
+        # not the function's own result: the values of chosen expressions at chosen nodes, for this kind
+        for e, at in probe(F, feasible):
+            vs = operand(e, at)
+            out |= {x for x in (vs or ()) if x in universe}
+        return out
     falls_through = False
     for n in feasible:
         if n.kind == "return":
